@@ -311,8 +311,11 @@ def reset_library_state():
             delattr(cls, k)
     block_token.reset_tokens()
     span_token.reset_tokens()
-    core_tokens._code_matches = []
-    token._root_node = None
+    # (internals: tolerated to be absent after a refactoring)
+    if hasattr(core_tokens, '_code_matches'):
+        core_tokens._code_matches = []
+    if hasattr(token, '_root_node'):
+        token._root_node = None
     html._charref = charref
 
 
